@@ -7,6 +7,7 @@
 -/
 import Gnet.Basic
 import Gnet.Gen.Facts
+import Gnet.Spec.Fifo
 
 namespace Gnet
 
@@ -205,7 +206,7 @@ def bytesSafe (rb : Ring α) : Bool :=
   rb.isEmpty || (rb.r ≤ rb.buf.length && rb.w ≤ rb.buf.length)
 
 /-- fresh bytes a scripted reader delivers: positions `pos, pos+1, …` of the generator -/
-def fresh (gen : Nat → α) (pos m : Nat) : List α := (List.range m).map (fun i => gen (pos + i))
+abbrev fresh (gen : Nat → α) (pos m : Nat) : List α := Fifo.fresh gen pos m
 
 /-- one iteration of the `ReadFrom` loop: grow if fewer than `MinRead` bytes are free, then one
     `r.Read` into the contiguous free area. Returns the state and the number of bytes read. -/
@@ -302,6 +303,57 @@ structure WF (rb : Ring α) : Prop where
   w_lt : rb.size = 0 ∨ rb.w < rb.size
   empty_zero : rb.isEmpty = true → rb.r = 0 ∧ rb.w = 0
   zero_empty : rb.size = 0 → rb.isEmpty = true
+
+/-- `Discard` computes `% size`: Go panics on a zero divisor -/
+def discardSafe (rb : Ring α) (n : Int) : Bool := !(0 < n && n.toNat < rb.buffered && rb.size == 0)
+
+/-- one operation of the public API on (buffer, reader position); `none` = the Go code panics -/
+def step (gen : Nat → α) (s : Ring α × Nat) : Fifo.Op α → Option ((Ring α × Nat) × Fifo.Obs α)
+  | .write p => if s.1.writeSafe p then some ((s.1.write p, s.2), ⟨p.length, .nil, []⟩) else none
+  | .writeByte c => if s.1.writeByteSafe c then some ((s.1.writeByte c, s.2), ⟨1, .nil, []⟩) else none
+  | .read n =>
+    if s.1.readSafe n then
+      let (rb', data, e) := s.1.read n
+      some ((rb', s.2), ⟨data.length, e, data⟩)
+    else none
+  | .readByte =>
+    if s.1.readByteSafe then
+      let (rb', b, e) := s.1.readByte
+      some ((rb', s.2), ⟨b.toList.length, e, b.toList⟩)
+    else none
+  | .peek n =>
+    if s.1.peekSafe n then
+      let (h, t) := s.1.peek n
+      some (s, ⟨(h ++ t).length, .nil, h ++ t⟩)
+    else none
+  | .discard n =>
+    if s.1.discardSafe n then
+      let (rb', d) := s.1.discard n
+      some ((rb', s.2), ⟨d, .nil, []⟩)
+    else none
+  | .bytes => if s.1.bytesSafe then some (s, ⟨s.1.bytes.length, .nil, s.1.bytes⟩) else none
+  | .readFrom sc =>
+    if s.1.readFromSafe gen s.2 sc then
+      let (rb', n, e, pos') := s.1.readFrom gen s.2 0 sc
+      some ((rb', pos'), ⟨n, e, []⟩)
+    else none
+  | .writeTo sc =>
+    if s.1.writeToSafe sc then
+      let (rb', n, e, sink, _) := s.1.writeTo sc
+      some ((rb', s.2), ⟨n, e, sink⟩)
+    else none
+  | .reset => some ((s.1.reset, s.2), ⟨0, .nil, []⟩)
+
+/-- a whole history -/
+def run (gen : Nat → α) (s : Ring α × Nat) : List (Fifo.Op α) → Option ((Ring α × Nat) × List (Fifo.Obs α))
+  | [] => some (s, [])
+  | op :: ops =>
+    match step gen s op with
+    | none => none
+    | some (s', o) =>
+      match run gen s' ops with
+      | none => none
+      | some (s'', os) => some (s'', o :: os)
 
 end Ring
 end Gnet
